@@ -92,9 +92,11 @@ def cases(rng, n):
             # a pointer to a scalar: `p = 1` writes through it only for &i64 parameters; skip
             continue
         params = ["i: usize"] + (["v: %s" % tsrc] if kind == "param" else [])
-        body = ("\tvar v: %s;\n" % tsrc if kind == "local" else "") + "\tv%s = 1;\n" % suffix
+        # a write `v.. = 1;` or a read `var r = v..;` (the value is loaded from the address, then stored to r)
+        read = (i // len(bs)) % 2 == 1
+        body = ("\tvar v: %s;\n" % tsrc if kind == "local" else "") + ("\tvar r = v%s;\n" % suffix if read else "\tv%s = 1;\n" % suffix)
         src = DECLS + "fn f(%s)\n{\n%s}\nfn main()\n{\n}\n" % (", ".join(params), body)
-        out.append(("a%d" % i, src, "(%s %s (%s))" % (kind, tsx, " ".join(steps)), kind, tsrc + suffix))
+        out.append(("a%d" % i, src, "(%s %s (%s))" % (kind, tsx, " ".join(steps)), "read" if read else "write", tsrc + suffix))
     return out
 
 
@@ -103,9 +105,12 @@ def ir_address_instrs(ir):
     m = re.search(r"define[^\n]*@f\([^\n]*\{\n(.*?)\n\}", ir, re.S)
     if not m: return None
     out = []
-    for line in m.group(1).split("\n"):
+    body = m.group(1)
+    for line in body.split("\n"):
         line = line.strip()
         if line.startswith("store "): return " ".join(out)
+        mm = re.match(r"(%\w+) = extractvalue ", line)
+        if mm and len(re.findall(re.escape(mm.group(1)) + r"\b", body)) == 1: continue       # a dead extractvalue (its result is never used)
         mm = re.match(r"%\w+ = extractvalue .*, (\d+)$", line)
         if mm: out.append("X" + mm.group(1)); continue
         if re.match(r"%\w+ = getelementptr ", line):
@@ -151,7 +156,8 @@ def run(ck, n, seed):
         want = m.split("\t")[0][len("instrs="):] if m.startswith("instrs=") else None
         if real is None or want is None or want == "none":
             bad += 1; ck.violation("tie-broken:memlower-format", "cannot compare (real %r, model %r)" % (real, m), src + "\n" + ir[:3000]); continue
-        stats["compared"] += 1; shapes.add(re.sub(r"\d+", "n", real))
+        if kind == "read": want = (want + " L").strip()          # the value itself is loaded from the address
+        stats["compared:" + kind] += 1; shapes.add(re.sub(r"\d+", "n", real))
         if real != want:
             bad += 1
             ck.violation("wrong-address-computation", "the address of `%s` is computed as [%s]; Model/MemLower.v (lower_ref, proved equal to the step-by-step meaning of the reference: lower_ref_sound) says [%s]" % (ref, real, want),
